@@ -103,6 +103,19 @@ def observe(H, g, post, rng):
     o["empty"] = _try(lambda: [iE(e) for e in H.edges.empty()])
     from .c12 import frac
 
+    # views restricted to a bunch of ids: the ids in view (not bunch) order, statistics over exactly them
+    bn = [n for n in nodes if rng.random() < 0.5]
+    rng.shuffle(bn)
+    be = [e for e in edges if rng.random() < 0.5]
+    rng.shuffle(be)
+
+    def subviews():
+        vn, ve = H.nodes(bn), H.edges(be)
+        return [[iN(n) for n in bn], [iN(n) for n in vn], _ints(vn.degree.aslist()), [iE(e) for e in be], [iE(e) for e in ve],
+                _ints(ve.size.aslist()), [sorted(iN(x) for x in m) for m in ve.members()], [int(len(vn)), int(len(ve))]]
+    o["sub"] = _try(subviews)
+    if o["sub"] is ERR:
+        o["sub"] = [[-99]]
     if nodes:
         o["agg"] = _try(lambda: [int(deg.max()), int(deg.min()), int(deg.sum()), iN(deg.argmax()), iN(deg.argmin())])
         o["argsort"] = _try(lambda: [iN(n) for n in deg.argsort()])
